@@ -165,6 +165,11 @@ func c01RecordSite(p *Prog, r *Report, fn *ssa.Function, f map[string]*ssa.Store
 	T := pre.Add(lo) // the sample index that sits at position `presamples` of the record
 	tf := c.Of(f["trigFrame"].Val)
 	ffiSym, ok := symWithSuffix(tf, ".firstFrameIndex")
+	if !ok {
+		// the stream's first frame can cancel out of the stamp when the trigger index was itself
+		// computed as <frame> - firstFrameIndex: then it appears (negated) in the trigger index
+		ffiSym, ok = symWithSuffix(T, ".firstFrameIndex")
+	}
 	if !ok || !strings.HasPrefix(basePath(ffiSym), streamPrefix) {
 		r.Bad("C01.R1", site+" frame stamp", p.InstrPos(f["trigFrame"]), fmt.Sprintf("the trigger frame %s is not derived from the first frame index of the stream the samples were taken from", tf))
 	} else {
